@@ -391,11 +391,59 @@ def check_ml_text(case, env, data, path):
             env.nontrivial((case["pattern"], tuple(case["args"]), case["input"], mname))
 
 
+def check_ml_history(case, env, data, path):
+    """What is printed for a file does not depend on what the same searcher
+    searched before it: f.txt alone vs f.txt as the second of two files of a
+    single-threaded run whose inputs arrive through a preprocessor (the
+    incremental-reader route of multi-line search)."""
+    rep = env.rep
+    fargs = ["-a", "--no-config", "--color", "never"] + case["args"]
+    pats = ["-e", case["pattern"]]
+    env.write("a_first.txt", b"zzz first\nneedle 1\n" + data[: len(data) // 2] + b"\nlast of first\n")
+    for mname, margs in (("history-vimgrep", ["--vimgrep", "-b"]), ("history-json", ["--json"])):
+        rep["evaluations"] += 2
+        alone = common.run_rg(fargs + margs + ["-H"] + pats + [path], env.tmp, env.home)
+        both = common.run_rg(fargs + margs + ["-H", "-j1", "--pre", "/bin/cat"] + pats + ["a_first.txt", path], env.tmp, env.home)
+        if alone is None or both is None:
+            env.inconclusive("watchdog")
+            continue
+        env.count("rg_runs", 2)
+        if alone[0] == 2 or both[0] == 2:
+            continue
+        if mname == "history-json":
+            def recs(out):
+                keep = []
+                for ln in out.split(b"\n"):
+                    if not ln:
+                        continue
+                    try:
+                        o = json.loads(ln)
+                    except ValueError:
+                        keep.append(ln)
+                        continue
+                    if o.get("type") in ("match", "context") and o["data"]["path"].get("text") == path:
+                        keep.append(json.dumps(o["data"], sort_keys=True).encode())
+                return keep
+        else:
+            def recs(out):
+                return [ln for ln in out.split(b"\n") if ln.startswith(path.encode() + b":")]
+        a, b = recs(alone[1]), recs(both[1])
+        if a != b:
+            i = next((k for k in range(min(len(a), len(b))) if a[k] != b[k]), min(len(a), len(b)))
+            env.viol("C09:%s:results-depend-on-the-previous-file" % mname,
+                     "record %d of %s: alone %s, after another file %s" % (
+                         i, path, esc(a[i][:100]) if i < len(a) else "<none>", esc(b[i][:100]) if i < len(b) else "<none>"),
+                     {"kind": "cli", "args": case["args"], "pattern": case["pattern"], "input": case["input"],
+                      "argv_alone": fargs + margs + pats + [path],
+                      "argv_both": fargs + margs + ["-j1", "--pre", "/bin/cat"] + pats + ["a_first.txt", path]})
+
+
 def ml_case(case, env):
     data = unesc(case["input"])
     path = "f.txt"
     env.write(path, data)
     check_ml_text(case, env, data, path)
+    check_ml_history(case, env, data, path)
     c = dict(case)
     c["args"] = [a for a in case["args"]]
     check_json(c, env, data, path, [], "json-multiline", multiline=True)
